@@ -140,6 +140,12 @@ func c01Verifiers(c *Ctx) {
 		mustCross(vdp, "VerifyInclusion | sourceTxID >= Target.BlTxID", boolCallEdge(ahVerify+"VerifyInclusion", true), lt(false, "param:sourceTxID", "TargetTxHeader.BlTxID"))
 		mustCross(vdp, "VerifyConsistency | Source.BlTxID == 0", boolCallEdge(ahVerify+"VerifyConsistency", true), lt(false, "const:0", "SourceTxHeader.BlTxID"))
 		mustCross(vdp, "VerifyLastInclusion | Target.BlTxID == 0", boolCallEdge(ahVerify+"VerifyLastInclusion", true), lt(false, "const:0", "TargetTxHeader.BlTxID"))
+		// when the trusted source IS the last leaf of the target's tree (the usual "trusted N -> N+1" step), the proven last leaf is
+		// the trusted Alh: nothing else ties the target's tree to what the client trusts (the advance proof is empty in that case)
+		neq := func(subs ...string) edgePred {
+			return whenCond(false, func(a string) bool { return strings.Contains(a, " == ") && atomContains(subs...)(a) })
+		}
+		mustCross(vdp, "TargetBlTxAlh == sourceAlh | sourceTxID != Target.BlTxID", eq("TargetBlTxAlh", "param:sourceAlh"), neq("param:sourceTxID", "TargetTxHeader.BlTxID"), lt(true, "param:sourceTxID", "TargetTxHeader.BlTxID"))
 		mustCross(vdp, "VerifyLinearProof", boolCallEdge("embedded/store.VerifyLinearProof", true))
 		mustCross(vdp, "VerifyLinearAdvanceProof", boolCallEdge("embedded/store.VerifyLinearAdvanceProof", true))
 		// floors and argument binding of the sub-verifiers
